@@ -393,8 +393,12 @@ func (f *frame) loopHeader(b *ssa.BasicBlock, li *loopInfo, st *bstate, ins []in
 	// havoc
 	mods := f.loopModSet(li)
 	if mods.star {
+		// unknown code runs in the body: everything it can reach is havocked;
+		// objects private to this function are kept by havocAll, so what the
+		// body itself writes to them is havocked below like in the other case
 		f.havocAll(st, "loop")
-	} else {
+	}
+	{
 		for _, c := range mods.keys() {
 			me := mods.m[c]
 			vc.comps[c] = me.sort
